@@ -81,68 +81,99 @@ def lets_of(root):
     return out
 
 
+def span_output(facts, fn, style):
+    """What a span writer appends to the buffer for a fragment standing for any text (the symbol TEXT), by abstract evaluation:
+    a list of tokens — literal strings and ("shown", value) for displayed values that are not known strings.  encode_text and
+    color_name stay uninterpreted, third-party calls become applications."""
+    import abseval
+    out = []
+    atoms = {"fmt:sink": lambda a_: (out.append(a_[1]), ("ok", ("unit",)))[1],
+             "html_escape::encode::html_entity::encode_text": lambda a_: ("escaped", a_[0]),
+             V + "color_name": lambda a_: ("class-name", a_[0], a_[1]),
+             "*": lambda cal, a_, e_: ("app", cal) + tuple(a_)}
+    ev = abseval.Evaluator(facts, "anstyle_svg", atoms, inline_crates=("anstyle_svg", "anstyle"))
+    ev.concrete_strings = True
+    ev.fmt_symbolic = True
+    ev.call_fn("anstyle_svg", V + fn, [("sym", "buffer"), style, ("sym", "TEXT")])
+    toks = []
+    for o in out:
+        for x in ([o[1]] if o[0] == "str" else list(o[1:])):
+            if isinstance(x, str) and toks and isinstance(toks[-1], str):
+                toks[-1] += x
+            else:
+                toks.append(x)
+    return toks
+
+
+def _count_text(v):
+    if v == ("sym", "TEXT"):
+        return 1
+    if isinstance(v, (tuple, list)):
+        return sum(_count_text(x) for x in v)
+    return 0
+
+
 def rule_taint(facts, rep):
+    import itertools
+    bit = {n_: v_ for n_, v_, _ in ac.effect_consts(facts)}
+    allbits = 0
+    for v_ in bit.values():
+        allbits |= v_
+    opt = lambda c: ("some", ("sym", c)) if c else ("none",)
     for fn, kind in (("write_fg_span", "fg"), ("write_bg_span", "bg")):
         b = facts.body("anstyle_svg", V + fn)
         rep.fn(b["path"])
         names = [p.get("name") for p in b["params"]]
-        if names != ["buffer", "style", "fragment"]:
+        if len(names) != 3:
             raise AnchorMissing(f"{fn} parameters {names}")
-        lets = lets_of(b["hir"])
-        # the raw text parameter is used exactly once: as the argument of encode_text
-        uses = []
-        first_shadow = lets["fragment"][0] if "fragment" in lets else None
-        for n in hir.walk(b["hir"]):
-            if n.get("k") == "local" and n["name"] == "fragment":
-                uses.append(n)
-        enc = [n for n in hir.walk(b["hir"]) if hir.is_call(n, "html_escape::encode::html_entity::encode_text", "html_escape::encode_text")]
-        ok_src = len(enc) == 1 and first_shadow is not None and hir.simp(first_shadow["init"]) is enc[0] and hir.is_local(enc[0]["args"][0], "fragment")
-        # ids distinguish the parameter from its shadows
-        param_id = b["params"][2].get("id")
-        raw_uses = [n for n in uses if n.get("id") == param_id]
-        rep.check(ok_src and len(raw_uses) == 1, "taint", b["path"], "raw-text-only-into-encode_text",
-                  f"the caller's text must be used exactly once, as html_escape::encode_text(fragment); raw uses: {len(raw_uses)}", loc(b))
-        escaped_id = first_shadow["pat"].get("id") if first_shadow else None
-        writes = buffer_writes(b["hir"])
-        text_writes = 0
-        for n, pieces, args in writes:
-            for a in args:
-                a = hir.simp(a)
-                nm = a.get("name").split("~")[0] if a.get("k") == "local" else None     # `~N`: a local of an inlined helper
-                if nm == "fragment":
-                    text_writes += 1
-                    if kind == "fg":
-                        ok = a.get("id") == escaped_id
-                        rep.check(ok, "taint", b["path"], "fg-span-writes-the-escaped-text",
-                                  "the text written into the span must be the value returned by encode_text", loc(b, n))
-                    else:
-                        # second shadow: fill.repeat(width) with width = width(escaped)
-                        src = [l for l in lets["fragment"] if l["pat"].get("id") == a.get("id")]
-                        ok = False
-                        if len(src) == 1:
-                            r = hir.simp(src[0]["init"])
-                            if hir.is_call(r, "repeat") and hir.is_local(r["args"][0], "fill") and hir.is_local(r["args"][1], "width"):
-                                fl = hir.simp(lets["fill"][0]["init"])
-                                lits = [hir.lit_val(x) for x in hir.walk(fl) if x.get("k") == "lit" and x.get("t") == "str"]
-                                ok = sorted(lits) == sorted(["█", " "])
-                        rep.check(ok, "taint", b["path"], "bg-span-writes-fill-characters-only",
-                                  "the background layer must contain only '█' / ' ' repeated to the fragment's width, never the text", loc(b, n))
-                elif nm == "classes":
-                    pass
-                elif nm is not None:
-                    rep.bad("taint", b["path"], f"unexpected-format-argument:{nm}", "only the escaped text and the class list may be written", loc(b, n))
-        rep.check(text_writes == 1, "taint", b["path"], "one-text-write", f"{text_writes}", loc(b))
-        # classes: only literals and colour names are pushed
-        pushes = [n for n in hir.walk(b["hir"]) if hir.is_call(n, "alloc::vec::Vec::<T, A>::push") and hir.is_local(n["args"][0], "classes")]
-        bad = []
-        for p in pushes:
-            v = hir.simp(p["args"][1])
-            if hir.lit_val(v) is not None:
-                continue
-            if v.get("k") == "local" and v["name"] == "class":
-                continue
-            bad.append(hirpp.expr(v))
-        rep.check(not bad, "taint", b["path"], "classes-are-literals-or-colour-names", f"{bad}", loc(b))
+        # by evaluation over styles (each colour present or not; no effect, each single effect, all of them) with the fragment a
+        # symbol: the output is <tspan[ class="…"]>BODY</tspan>; the symbol occurs once, inside encode_text(..), and BODY is that
+        # escaped text (foreground layer) / a fill character repeated to the escaped text's width (background layer); the class
+        # list holds literals and colour names only.  Temporaries, shadowing and how the class list is assembled do not matter.
+        bad = {"raw": [], "body": [], "one": [], "classes": [], "other": []}
+        n = 0
+        for (fg, bg, ul), eff in itertools.product(itertools.product((None, "F"), (None, "B"), (None, "U")), [0, allbits] + sorted(bit.values())):
+            style = ("rec", {"fg": opt(fg), "bg": opt(bg), "underline": opt(ul), "effects": ("ctor", "anstyle::effect::Effects", ("int", eff))})
+            toks = span_output(facts, fn, style)
+            n += 1
+            case = f"colours {(fg, bg, ul)}, effects {eff:#x}"
+            shown = [t for t in toks if not isinstance(t, str)]
+            esc = ("escaped", ("sym", "TEXT"))
+            if kind == "fg":
+                body_ok = lambda v: v == ("shown", esc)
+            else:
+                fill = "█" if bg else " "
+                body_ok = lambda v, fill=fill: (v[0] == "shown" and v[1][0] == "app" and v[1][1].endswith("::repeat") and v[1][2] == ("str", fill) and
+                                                len(v[1]) == 4 and v[1][3][0] == "app" and v[1][3][1].endswith("UnicodeWidthStr>::width") and list(v[1][3][2:]) == [esc])
+            bodies = [t for t in shown if _count_text(t)]
+            if _count_text(toks) != 1 or not all(_count_text(t) == 0 or repr(esc) in repr(t) for t in shown):
+                bad["raw"].append(f"{case}: {str(toks)[:200]}")
+            if len(bodies) != 1:
+                bad["one"].append(f"{case}: {len(bodies)} writes carry the text")
+            elif not body_ok(bodies[0]) or toks[-1] != "</tspan>" or toks[-2] is not bodies[0] or not (isinstance(toks[-3], str) and toks[-3].endswith(">")):
+                bad["body"].append(f"{case}: {str(toks)[:200]}")
+            for t in shown:
+                if t in bodies:
+                    continue
+                members = list(t[1][2:]) if t[1][0] == "joined" else [t[1]]
+                if not all(m[0] == "str" or (m[0] == "class-name" and m[1][0] == "str" and m[2] in (("sym", "F"), ("sym", "B"), ("sym", "U"))) for m in members):
+                    bad["classes"].append(f"{case}: {str(t)[:160]}")
+                i_ = toks.index(t)
+                if not (i_ >= 1 and isinstance(toks[i_ - 1], str) and toks[i_ - 1].endswith(' class="') and isinstance(toks[i_ + 1], str) and toks[i_ + 1].startswith('"')):
+                    bad["other"].append(f"{case}: {str(t)[:120]} written outside the class attribute")
+        rep.count(n)
+        rep.check(not bad["raw"], "taint", b["path"], "raw-text-only-into-encode_text",
+                  f"the caller's text must be used exactly once, as html_escape::encode_text(fragment) ({n} styles evaluated): {bad['raw'][:1]}"[:400], loc(b))
+        if kind == "fg":
+            rep.check(not bad["body"], "taint", b["path"], "fg-span-writes-the-escaped-text",
+                      f"the text written into the span must be the value returned by encode_text: {bad['body'][:1]}"[:400], loc(b))
+        else:
+            rep.check(not bad["body"], "taint", b["path"], "bg-span-writes-fill-characters-only",
+                      f"the background layer must contain only '█' / ' ' repeated to the fragment's width, never the text: {bad['body'][:1]}"[:400], loc(b))
+        rep.check(not bad["one"], "taint", b["path"], "one-text-write", f"{bad['one'][:1]}", loc(b))
+        rep.check(not bad["classes"], "taint", b["path"], "classes-are-literals-or-colour-names", f"{bad['classes'][:1]}"[:300], loc(b))
+        if bad["other"]:
+            rep.bad("taint", b["path"], "unexpected-format-argument", f"only the escaped text and the class list may be written: {bad['other'][:1]}"[:300], loc(b))
     # render_svg: the text never is a format argument
     r = facts.body("anstyle_svg", V + "Term::render_svg")
     rep.fn(r["path"])
